@@ -315,13 +315,16 @@ def _check(ctx, case, dev, net, calls, windows, lifetime, modulus_state=None):
         if is_auth:
             continue          # an explicit authenticate always begins with a handshake; only the connection rule applies to it
         hs = [t for t in last_hs_ok.get(cid, []) if t < t0 - 1e-9]
-        if hs and later:
+        # what the exchange put on the wire first - on the connection it found, or on one it opened instead (both are allowed
+        # after the authentication lifetime; a new connection starts with a handshake anyway)
+        during = sorted((p for c2, pk in per.items() for p in pk if t0 - 1e-9 <= p["t"] <= t1 + 1e-9), key=lambda p: p["t"])
+        if hs and during:
             d = t0 - hs[-1]
             if abs(d - H12) > 1e-3 and d > H12:
                 ctx.bump("expiry-12h-judged")
-                if later[0]["kind"] != "hs":
+                if during[0]["kind"] != "hs":
                     ctx.violation("auth-expiry-ignored", f"exchange started {d:.0f}s after the last handshake on connection {cid} "
-                                  f"but its first packet was {later[0]['kind']}", case, {"letter": letter})
+                                  f"but its first packet was {during[0]['kind']}", case, {"letter": letter})
 
 
 def _long(ctx, case):
